@@ -281,6 +281,40 @@ static const std::map<std::string, Codec>& codecs()
     return m;
 }
 
+// Decoders with an allocation failpoint armed ONLY while the library's own decoding function runs (the conversion of
+// the result to JSON is harness code and runs after the failpoint is disarmed).
+using OomDecoder = std::function<json(const std::vector<std::byte>&, long long, bool*)>;
+template <class From, class ToJson>
+static OomDecoder oom_dec(From from, ToJson to_json)
+{
+    return [from, to_json](const std::vector<std::byte>& b, long long k, bool* fired) -> json {
+        auto obj = [&] {
+            struct Disarm { bool* f; ~Disarm() { *f = shim_disarm_alloc_fault(); } } d{fired};
+            shim_arm_alloc_fault(k);
+            return from(b);
+        }();
+        return to_json(obj);
+    };
+}
+static const std::map<std::string, OomDecoder>& oom_decoders()
+{
+    static const std::map<std::string, OomDecoder> m = {
+        {"v2_track_data", oom_dec([](auto& b) { return ev2::track_data_blob::from_blob(b); }, [](auto& o) { return td_to_json(o); })},
+        {"v2_beat_data", oom_dec([](auto& b) { return ev2::beat_data_blob::from_blob(b); }, [](auto& o) { return bd_to_json(o); })},
+        {"v2_quick_cues", oom_dec([](auto& b) { return ev2::quick_cues_blob::from_blob(b); }, [](auto& o) { return qc_to_json(o); })},
+        {"v2_loops", oom_dec([](auto& b) { return ev2::loops_blob::from_blob(b); }, [](auto& o) { return lp_to_json(o); })},
+        {"v2_overview", oom_dec([](auto& b) { return ev2::overview_waveform_data_blob::from_blob(b); }, [](auto& o) { return ow_to_json(o); })},
+        {"v1_beat_data", oom_dec([](auto& b) { return v1::beat_data::decode(b); }, [](auto& o) { return v1bd_j(o); })},
+        {"v1_high_res", oom_dec([](auto& b) { return v1::high_res_waveform_data::decode(b); }, [](auto& o) { return v1hr_j(o); })},
+        {"v1_loops", oom_dec([](auto& b) { return v1::loops_data::decode(b); }, [](auto& o) { return v1lp_j(o); })},
+        {"v1_overview", oom_dec([](auto& b) { return v1::overview_waveform_data::decode(b); }, [](auto& o) { return v1ow_j(o); })},
+        {"v1_quick_cues", oom_dec([](auto& b) { return v1::quick_cues_data::decode(b); }, [](auto& o) { return v1qc_j(o); })},
+        {"v1_track_data", oom_dec([](auto& b) { return v1::track_data::decode(b); }, [](auto& o) { return v1td_j(o); })},
+        {"zlib", oom_dec([](auto& b) { return djinterop::engine::zlib_uncompress(b); }, [](auto& o) { return json(hex_of(o)); })},
+    };
+    return m;
+}
+
 static json outcome_exc(const std::exception& e)
 {
     auto x = exception_to_json(e);
@@ -336,6 +370,32 @@ static const char* run_decode_compact(const Codec& c, const std::string& kind, c
     {
         auto in = exact_copy(raw);
         auto v = c.decode(in);
+        out = "ok";
+    }
+    catch (const std::exception& e)
+    {
+        out = "exc";
+        if (detail) *detail = outcome_exc(e);
+    }
+    catch (...)
+    {
+        out = "nonstd";
+    }
+    return out;
+}
+
+// The same decode with the k-th allocation inside it failing (memory pressure).  Returns the outcome as above and
+// whether the failpoint was reached; *value receives the dump of a returned value.
+static const char* run_decode_oom(const Codec& c, const std::string& kind, const std::string& raw, long long k, bool* fired,
+                                  std::string* value, json* detail)
+{
+    witness_set((kind + "#" + std::to_string(g_seq) + ":alloc-failure-at-" + std::to_string(k)).c_str(), raw.data(), raw.size());
+    const char* out;
+    auto in = exact_copy(raw);
+    try
+    {
+        json v = oom_decoders().at(kind)(in, k, fired);
+        if (value) *value = v.dump();
         out = "ok";
     }
     catch (const std::exception& e)
@@ -513,6 +573,8 @@ bool dispatch_codec(State& st, const std::string& op, const json& a, json& ret)
         long long idx = 0;
         bool wrap = a.value("wrap", false);
         long long skip = a.value("skip", 0LL);
+        long long oom = a.value("oom", 0LL), oom_fired = 0, oom_ok = 0;
+        std::map<std::string, long long> oom_exc;
         g_seq = -1;
         for (auto& h : a.at("inputs"))
         {
@@ -535,12 +597,61 @@ bool dispatch_codec(State& st, const std::string& op, const json& a, json& ret)
                 flags["outcome"] = o;
                 if (bad.size() < 50) bad.push_back(flags);
             }
+            if (oom > 0)
+            {
+                // allocation-failure sweep: the k-th allocation inside the decoder fails, for k = 1, 2, ... until the
+                // decoder finishes without reaching the failpoint; a returned value must be the fault-free one
+                std::string base_val;
+                bool base_ok = false;
+                try
+                {
+                    base_val = it->second.decode(exact_copy(raw)).dump();
+                    base_ok = true;
+                }
+                catch (const std::exception&)
+                {
+                }
+                json f0 = json::object();
+                take_flags(f0);
+                for (long long k = 1; k <= oom; ++k)
+                {
+                    bool fired = false;
+                    std::string val;
+                    json det;
+                    const char* oo = run_decode_oom(it->second, kind, raw, k, &fired, &val, &det);
+                    json fl = json::object();
+                    take_flags(fl);
+                    if (!fired) break;
+                    ++oom_fired;
+                    ++n;
+                    if (!strcmp(oo, "exc"))
+                        ++oom_exc[det["exc"].get<std::string>()];
+                    else if (!strcmp(oo, "ok"))
+                    {
+                        ++oom_ok;
+                        if (!base_ok || val != base_val) fl["oom_wrong_value"] = true;
+                    }
+                    if (!strcmp(oo, "nonstd") || !fl.empty())
+                    {
+                        fl["i"] = idx;
+                        fl["outcome"] = oo;
+                        fl["alloc_failure_at"] = k;
+                        if (bad.size() < 50) bad.push_back(fl);
+                    }
+                }
+            }
             ++idx;
         }
         ret["n"] = n;
         ret["ok"] = ok;
         ret["exc"] = exc;
         ret["bad"] = bad;
+        if (oom > 0)
+        {
+            ret["oom_fired"] = oom_fired;
+            ret["oom_exc"] = oom_exc;
+            ret["oom_ok"] = oom_ok;
+        }
         return true;
     }
     if (op == "decode_mut")
